@@ -149,6 +149,13 @@ def structural_tables():
     return out
 
 
+def big_table(n=70001):
+    """A long table (more rows than any plausible block size), negatively dependent columns."""
+    P = A.lattice(n, 3)
+    Z = stats.norm.ppf(P) @ np.linalg.cholesky(np.array([[1, -0.3, 0.5], [-0.3, 1, 0.1], [0.5, 0.1, 1.0]])).T
+    return pd.DataFrame({'x': Z[:, 0], 'y': 3 + 2 * Z[:, 1], 'z': stats.uniform(1, 4).ppf(stats.norm.cdf(Z[:, 2]))})
+
+
 # ------------------------------------------------------------------------------------------------
 # marginal configurations
 
